@@ -68,6 +68,7 @@ func init() {
 			add(ShutdownParams{Case: "rebalance", Checkpoint: "auto", Membership: "static"}, 4)
 			add(ShutdownParams{Case: "rebalance", Checkpoint: "auto", Mitigation: true, Membership: "dynamic"}, 4)
 			add(ShutdownParams{Case: "absorbed", Checkpoint: "auto", Membership: "static", MaxPoint: 2}, 1)
+			add(ShutdownParams{Case: "slowobserve", Checkpoint: "auto", Mitigation: true, Membership: "static", MaxPoint: 24}, 2)
 			add(ShutdownParams{Case: "closefault", Checkpoint: "auto", Membership: "static", MaxPoint: 4}, 1)
 			add(ShutdownParams{Case: "closefault", Checkpoint: "auto", Membership: "static", MaxPoint: 4, OldServer: true}, 1)
 			add(ShutdownParams{Case: "idle", Checkpoint: "auto", Membership: "static", MaxPoint: 1, OldServer: true}, 1)
@@ -75,6 +76,7 @@ func init() {
 			add(ShutdownParams{Case: "pingfail", Checkpoint: "auto", Health: true, Membership: "static", MaxPoint: 40}, 4)
 			add(ShutdownParams{Case: "rebalance2", Checkpoint: "auto", Membership: "static", MaxPoint: 3}, 1)
 			add(ShutdownParams{Case: "notifyduringclose", Checkpoint: "auto", Membership: "dynamic", MaxPoint: 120}, 4)
+			out = append(out, Instance{Scenario: "c16_race", Params: mustJSON(ScrapeRaceParams{Against: "close", Inject: true}), Bound: 0, Shards: 4, Note: "a metrics scrape (prometheus runs Collect on its own goroutine) at every scheduling point of the stream's Close(): no crash"})
 			add(ShutdownParams{Case: "idle", Checkpoint: "auto", Membership: "couchbase", MaxPoint: 1}, 1)
 			add(ShutdownParams{Case: "deliver", Checkpoint: "auto", Membership: "couchbase", MaxPoint: 60}, 4)
 			return out
@@ -366,6 +368,22 @@ func shutdownMain(p ShutdownParams) {
 			}
 			return gocbcore.SimAnswer{}
 		}
+		doClose()
+	case "slowobserve":
+		// rollback mitigation: the nodes answer the persistence polls slowly (1.2 s - inside the request deadline)
+		// or not at all; Close() arrives at every quarter second of two poll rounds, i.e. before a round, while
+		// its requests are in flight, and between rounds
+		silent := k%2 == 1
+		c.Fault = func(r *gocbcore.SimRequest) gocbcore.SimAnswer {
+			if r.Kind == "observevb" {
+				if silent {
+					return gocbcore.SimAnswer{Kind: "drop"}
+				}
+				return gocbcore.SimAnswer{Kind: "delay", Delay: 1200 * time.Millisecond}
+			}
+			return gocbcore.SimAnswer{}
+		}
+		vrt.Sleep(time.Duration(k/2) * 250 * time.Millisecond)
 		doClose()
 	case "absorbed":
 		// the only unsaved progress is an event the library settles itself (seqno-advanced / a collection
